@@ -508,7 +508,7 @@ MANIFEST = {
     "(one latency/service_time/processing_time record per executed request with the right task, operation, sample type and client id; one service_time per dependent "
     "sub-request) and conservation at every stage of the pipeline (sampler -> UpdateSamples -> driver -> post-processing -> hand-over -> race control), under "
     "seeded message interleavings and line-level preemption between worker actor and executor in both directions (executor code inside an actor handler, the actor's wake-up inside Sampler.add). "
-    "The client id of a record is compared with the id rally stored on the HTTP node the request travelled through.",
+    "The client id of a record is compared with the id rally stored on the HTTP node the request travelled through; the capacity of every worker's sample queue, observed at the queue, must be the configured sample.queue.size (default 2^20).",
     "note": "Same actor/ES model as C01; preemption points are statement boundaries of three Worker methods.",
     "technique": "runtime monitor: unique-id exactly-once + stage conservation check over the recorded sample pipeline of simulated races (incl. injected line-level preemption)",
     "engines": ["vclock", "simactor", "simes", "race"],
